@@ -292,7 +292,9 @@ def parse_minimize_for_optimal(minimize):
     elif minimize == "write":
         return compute_con_cost_write
 
-    minimize_finder = re.compile(r"(flops|size|write|combo|limit)-*(\d*)")
+    minimize_finder = re.compile(
+        r"(flops|size|write|combo|limit)-*(\d*\.?\d*)"
+    )
 
     # parse out a customized value for the combination factor
     match = minimize_finder.fullmatch(minimize)
@@ -300,8 +302,14 @@ def parse_minimize_for_optimal(minimize):
         raise ValueError(f"Couldn't parse `minimize` value: {minimize}.")
 
     minimize, custom_factor = match.groups()
-    # n.b. keep the (integer) factor exact, costs can exceed 2**53
-    factor = int(custom_factor) if custom_factor else 64
+    # n.b. keep an integer factor exact, costs can exceed 2**53
+    if not custom_factor:
+        factor = 64
+    elif custom_factor.isdigit():
+        factor = int(custom_factor)
+    else:
+        # e.g. from ``ComboObjective(factor=0.5)``
+        factor = float(custom_factor)
     if minimize == "combo":
         return functools.partial(compute_con_cost_combo, factor=factor)
     elif minimize == "limit":
